@@ -101,6 +101,66 @@ theorem vm_arr_get (m : Module) (fr : Frame) (c : Core) (a et : Nat) (es : List 
       simp only [execData, Opc.isControl, execData', pop_push, asI64, hobj, h', Bool.false_eq_true, if_false, errS]
     exact ⟨_, key, by simp [Core.release]⟩
 
+theorem not_inRange_false {idx : I64} {len : Nat} (h : ¬ inRange idx len) : idxInRange idx len = false := by
+  cases hb : idxInRange idx len with
+  | false => rfl
+  | true => exact absurd ((idxInRange_iff idx len).mp hb) h
+
+/-- `OP_ARR_SET` on the model: an index outside [0, length) raises VM_ERR_OUT_OF_BOUNDS, nothing is stored
+    (the operands are released), nothing is pushed, nothing is printed - for every length, every 64-bit
+    index and every value -/
+theorem vm_arr_set_oob (m : Module) (fr : Frame) (c : Core) (a et : Nat) (es : List Val) (idx : I64) (v : Val) (st : Nat)
+    (hobj : c.heap.obj? a = some (.arr et es)) (h : ¬ inRange idx es.length) :
+    ∃ c', execData m fr (((c.push (.arr a)).push (.int idx)).push v) st .ARR_SET [] = some (c', .err .outOfBounds) ∧
+      c'.stack = c.stack ∧ c'.out = c.out ∧ c'.heap = (c.heap.release1 (.arr a)).release1 v := by
+  have h' := not_inRange_false h
+  have key : execData m fr (((c.push (.arr a)).push (.int idx)).push v) st .ARR_SET []
+      = some ((c.release (.arr a)).release v, .err .outOfBounds) := by
+    simp only [execData, Opc.isControl, execData', pop_push, asI64, hobj, h', Bool.false_eq_true, if_false, errS]
+  exact ⟨_, key, rfl, rfl, rfl⟩
+
+/-- `OP_ARR_REMOVE` out of range: error, array untouched apart from the release of the operand -/
+theorem vm_arr_remove_oob (m : Module) (fr : Frame) (c : Core) (a et : Nat) (es : List Val) (idx : I64) (st : Nat)
+    (hobj : c.heap.obj? a = some (.arr et es)) (h : ¬ inRange idx es.length) :
+    ∃ c', execData m fr ((c.push (.arr a)).push (.int idx)) st .ARR_REMOVE [] = some (c', .err .outOfBounds) ∧
+      c'.stack = c.stack ∧ c'.out = c.out ∧ c'.heap = c.heap.release1 (.arr a) := by
+  have h' := not_inRange_false h
+  have key : execData m fr ((c.push (.arr a)).push (.int idx)) st .ARR_REMOVE []
+      = some (c.release (.arr a), .err .outOfBounds) := by
+    simp only [execData, Opc.isControl, execData', pop_push, asI64, hobj, h', Bool.false_eq_true, if_false, errS]
+  exact ⟨_, key, rfl, rfl, rfl⟩
+
+/-- `OP_ARR_POP` on an empty array: error, no value is produced -/
+theorem vm_arr_pop_empty (m : Module) (fr : Frame) (c : Core) (a et : Nat) (st : Nat)
+    (hobj : c.heap.obj? a = some (.arr et [])) :
+    ∃ c', execData m fr (c.push (.arr a)) st .ARR_POP [] = some (c', .err .outOfBounds) ∧ c'.stack = c.stack ∧ c'.out = c.out := by
+  have key : execData m fr (c.push (.arr a)) st .ARR_POP [] = some (c.release (.arr a), .err .outOfBounds) := by
+    simp only [execData, Opc.isControl, execData', pop_push, hobj, Bool.false_eq_true, if_false, errS, List.getLast?_nil]
+  exact ⟨_, key, rfl, rfl⟩
+
+/-- field `k` of a struct, union or tuple with `fs.length ≤ k`: error, no value is produced -/
+theorem vm_field_oob (m : Module) (fr : Frame) (c : Core) (a : Nat) (fs : List Val) (k : Nat) (st : Nat) (hk : k ≥ fs.length) :
+    (∀ d, c.heap.obj? a = some (.struct d fs) →
+      ∃ c', execData m fr (c.push (.struct a)) st .STRUCT_GET [k] = some (c', .err .outOfBounds) ∧ c'.stack = c.stack ∧ c'.out = c.out) ∧
+    (∀ d vr, c.heap.obj? a = some (.union d vr fs) →
+      ∃ c', execData m fr (c.push (.union a)) st .UNION_FIELD [k] = some (c', .err .outOfBounds) ∧ c'.stack = c.stack ∧ c'.out = c.out) ∧
+    (c.heap.obj? a = some (.tuple fs) →
+      ∃ c', execData m fr (c.push (.tuple a)) st .TUPLE_GET [k] = some (c', .err .outOfBounds) ∧ c'.stack = c.stack ∧ c'.out = c.out) := by
+  refine ⟨?_, ?_, ?_⟩
+  · intro d hobj
+    have key : execData m fr (c.push (.struct a)) st .STRUCT_GET [k] = some (c.release (.struct a), .err .outOfBounds) := by
+      simp only [execData, Opc.isControl, execData', pop_push, hobj, Bool.false_eq_true, if_false, errS, List.getD_cons_zero, hk, if_true]
+    exact ⟨_, key, rfl, rfl⟩
+  · intro d vr hobj
+    have key : execData m fr (c.push (.union a)) st .UNION_FIELD [k] = some (c.release (.union a), .err .outOfBounds) := by
+      simp only [execData, Opc.isControl, execData', pop_push, hobj, Bool.false_eq_true, if_false, errS, List.getD_cons_zero, hk, if_true]
+    exact ⟨_, key, rfl, rfl⟩
+  · intro hobj
+    have key : execData m fr (c.push (.tuple a)) st .TUPLE_GET [k] = some (c.release (.tuple a), .err .outOfBounds) := by
+      simp only [execData, Opc.isControl, execData', pop_push, hobj, Bool.false_eq_true, if_false, errS, List.getD_cons_zero, hk, if_true]
+    exact ⟨_, key, rfl, rfl⟩
+
+
 /- non-vacuity -/
 example : inRange (BitVec.ofNat 64 2) 3 := by decide
 example : ¬ inRange (BitVec.ofInt 64 (-1)) 3 := by decide
